@@ -15,6 +15,7 @@ import c18_tables  # noqa
 import c11_gen as G  # noqa
 
 PID = 'C18'
+PROPS = ['C18/Props.v', 'C18/PropsSlots.v', 'C18/PropsDegen.v']
 
 HEADER = '''From Coq Require Import ZArith QArith List String Bool.
 Import ListNotations.
@@ -838,13 +839,23 @@ def main(ctx):
         ctx.notes['translator_degraded'] = degraded
     proof_ok = False
     if tie_ok:
-        proof_ok, log = ctx.build_props('C18/Props.v', extra_targets=['C18/Check.vo', 'C11/Check.vo'])
-        if not proof_ok:
-            ctx.notes['build_log_tail'] = log[-2500:]
+        # three property files: a change to one region of the code leaves the obligations
+        # about the other regions standing
+        proof_ok = True
+        for k, pf in enumerate(PROPS):
+            ok, log = ctx.build_props(pf, extra_targets=['C18/Check.vo', 'C11/Check.vo'] if k == 0 else [])
+            if not ok:
+                proof_ok = False
+                ctx.notes['build_log_tail'] = (ctx.notes.get('build_log_tail', '') + '\n' + log[-1500:])[-3000:]
+        ctx.checker_cmd = ('cd /verif/coq && coq_makefile -f _CoqProject -o Makefile && make ' +
+                           ' '.join(pf[:-2] + '.vo' for pf in PROPS) +
+                           '  (coqc 8.16.1, full .vo build) + Print Assumptions of each theorem of ' +
+                           ', '.join(PROPS))
     else:
-        for n in lib.theorem_names(lib.COQ / 'C18' / 'Props.v'):
-            ctx.obligations.append({'name': n, 'discharged': False, 'assumptions': [],
-                                    'note': 'translator failed closed'})
+        for pf in PROPS:
+            for n in lib.theorem_names(lib.COQ / pf):
+                ctx.obligations.append({'name': n, 'discharged': False, 'assumptions': [],
+                                        'note': 'translator failed closed'})
     model_ok = tie_ok
     if tie_ok and not proof_ok:
         ok, log, _ = lib.coq_make(['C18/Check.vo', 'C11/Check.vo'])
@@ -873,10 +884,12 @@ def main(ctx):
                       ', '.join(bad)[:300], found_input=len(ctx.violations) > before,
                       signature={'kind': 'proof-broken'})
     if ctx.tier == 'thorough' and proof_ok:
-        if not ctx.coqchk('C18/Props.v'):
-            ctx.violation('proof-broken', {'coqchk': ctx.notes.get('coqchk')},
-                          'coqchk accepts C18/Props.vo and its dependencies', 'rejected',
-                          'coqchk FV.C18.Props', found_input=False, signature={'kind': 'coqchk'})
+        for pf in PROPS:
+            if not ctx.coqchk(pf):
+                ctx.violation('proof-broken', {'coqchk': ctx.notes.get('coqchk')},
+                              f'coqchk accepts {pf}o and its dependencies', 'rejected',
+                              'coqchk FV.' + pf[:-2].replace('/', '.'), found_input=False,
+                              signature={'kind': 'coqchk', 'file': pf})
     ctx.exhaustive = False
     return ctx.finish()
 
